@@ -677,3 +677,78 @@ pub fn c05(ctx: &mut Ctx) {
     ctx.run_cases("kzg10", n, |ctx, _i, rng| kzg_c05(ctx, rng));
     ctx.run_cases("streaming", n, |ctx, _i, rng| stream_c05(ctx, rng));
 }
+
+// ====================================================================== C12
+
+fn kzg_c12(ctx: &mut Ctx, rng: &mut ChaCha20Rng) {
+    use super::c12::roundtrip;
+    let w = match kzg_world(rng) {
+        Ok(w) => w,
+        Err(_) => return ctx.skipped("baseline", "setup refused"),
+    };
+    let vk = w.vk();
+    let mut items = Vec::new();
+    for _ in 0..2 {
+        match kzg_item(&w, rng) {
+            Ok(it) => items.push(it),
+            Err(_) => return ctx.skipped("baseline", "honest pipeline refused (reported under C01)"),
+        }
+    }
+    let desc = json!({"items": items.iter().map(|i| i.desc.clone()).collect::<Vec<_>>()});
+    let _ = roundtrip(ctx, "kzg10-universal-params", &w.pp, &desc, rng);
+    let powers = w.powers();
+    let _ = roundtrip(ctx, "kzg10-powers", &powers, &desc, rng);
+    let vk2 = roundtrip(ctx, "kzg10-verifier-key", &vk, &desc, rng);
+    let c2: Vec<_> = items.iter().filter_map(|it| roundtrip(ctx, "kzg10-commitment", &it.comm, &desc, rng)).collect();
+    let p2: Vec<_> = items.iter().filter_map(|it| roundtrip(ctx, "kzg10-proof", &it.proof, &desc, rng)).collect();
+    let _ = roundtrip(ctx, "kzg10-randomness", &items[0].rand, &desc, rng);
+    if let Some(vk2) = vk2 {
+        if c2.len() == items.len() && p2.len() == items.len() {
+            let comms: Vec<_> = items.iter().map(|i| i.comm).collect();
+            let zs: Vec<_> = items.iter().map(|i| i.z).collect();
+            let vs: Vec<_> = items.iter().map(|i| i.v).collect();
+            let mut bad = vs.clone();
+            bad[1] += Fr::one();
+            let proofs: Vec<_> = items.iter().map(|i| i.proof).collect();
+            let run = |vk: &kzg10::VerifierKey<E>, c: &[kzg10::Commitment<E>], p: &[kzg10::Proof<E>], v: &[Fr]| {
+                let mut r = crate::probe::mon_rng(3);
+                let b = crate::rt::decide(|| Kzg::batch_check(vk, c, &zs, v, p, &mut r));
+                let s = crate::rt::decide(|| Kzg::check(vk, &c[0], zs[0], v[0], &p[0]));
+                (b, s)
+            };
+            let (a1, s1) = run(&vk, &comms, &proofs, &vs);
+            let (b1, _) = run(&vk, &comms, &proofs, &bad);
+            let (a2, s2) = run(&vk2, &c2, &p2, &vs);
+            let (b2, _) = run(&vk2, &c2, &p2, &bad);
+            ctx.check(a1.is_accept() == a2.is_accept() && b1.is_accept() == b2.is_accept(), "decision-preserved[batch_check]", "KZG10::batch_check", desc.clone(),
+                || json!({"original": [a1.json(), b1.json()], "deserialized": [a2.json(), b2.json()]}));
+            ctx.check(s1.is_accept() == s2.is_accept(), "decision-preserved[check]", "KZG10::check", desc, || json!({"original": s1.json(), "deserialized": s2.json()}));
+        }
+    }
+}
+
+fn ml_c12(ctx: &mut Ctx, rng: &mut ChaCha20Rng) {
+    use super::c12::roundtrip;
+    let it = match ml_item(rng, 5) {
+        Ok(it) => it,
+        Err(_) => return ctx.skipped("baseline", "honest pipeline refused (reported under C01)"),
+    };
+    let desc = it.desc.clone();
+    let _ = roundtrip(ctx, "mlpst-committer-key", &it.ck, &desc, rng);
+    let vk2 = roundtrip(ctx, "mlpst-verifier-key", &it.vk, &desc, rng);
+    let c2 = roundtrip(ctx, "mlpst-commitment", &it.comm, &desc, rng);
+    let p2 = roundtrip(ctx, "mlpst-proof", &it.proof, &desc, rng);
+    if let (Some(vk2), Some(c2), Some(p2)) = (vk2, c2, p2) {
+        let a1 = guard(|| MultilinearPC::<E>::check(&it.vk, &it.comm, &it.z, it.v, &it.proof));
+        let b1 = guard(|| MultilinearPC::<E>::check(&it.vk, &it.comm, &it.z, it.v + Fr::one(), &it.proof));
+        let a2 = guard(|| MultilinearPC::<E>::check(&vk2, &c2, &it.z, it.v, &p2));
+        let b2 = guard(|| MultilinearPC::<E>::check(&vk2, &c2, &it.z, it.v + Fr::one(), &p2));
+        ctx.check(a1 == a2 && b1 == b2, "decision-preserved[check]", "MultilinearPC::check", desc, || json!({"original": [format!("{:?}", a1), format!("{:?}", b1)], "deserialized": [format!("{:?}", a2), format!("{:?}", b2)]}));
+    }
+}
+
+pub fn c12(ctx: &mut Ctx) {
+    let n = ctx.n(60, 1200);
+    ctx.run_cases("kzg10", n, |ctx, _i, rng| kzg_c12(ctx, rng));
+    ctx.run_cases("mlpst", n / 2, |ctx, _i, rng| ml_c12(ctx, rng));
+}
